@@ -70,12 +70,14 @@ BIG = 1e3
 
 LINEN_CELLS = [
     ('LSTMCell', ()), ('OptimizedLSTMCell', ()), ('GRUCell', ()), ('SimpleCell', ()), ('SimpleCell', (('residual', True),)),
+    ('LSTMCell', (('act', 'soft_sign'),)), ('OptimizedLSTMCell', (('act', 'soft_sign'),)),
     ('MGUCell', ()), ('MGUCell', (('reset_gate', False),)), ('ConvLSTMCell', (('kernel_size', (2,)),)),
     ('ConvLSTMCell', (('kernel_size', (3,)),)),
 ]
 LINEN_CELLS_THOROUGH = LINEN_CELLS + [('ConvLSTMCell', (('kernel_size', (2, 2)),)),
                                       ('ConvLSTMCell', (('kernel_size', (2,)), ('use_bias', False)))]
-NNX_CELLS = [('LSTMCell', ()), ('OptimizedLSTMCell', ()), ('GRUCell', ()), ('SimpleCell', ()), ('SimpleCell', (('residual', True),))]
+NNX_CELLS = [('LSTMCell', ()), ('OptimizedLSTMCell', ()), ('GRUCell', ()), ('SimpleCell', ()), ('SimpleCell', (('residual', True),)),
+             ('LSTMCell', (('act', 'soft_sign'),)), ('OptimizedLSTMCell', (('act', 'soft_sign'),))]
 
 _CACHE = {}
 
@@ -151,7 +153,18 @@ def _unlayout(x, nb, time_major):
 
 
 def _spec_kw(spec):
-  return {k: v for k, v in spec[1]}
+  kw = {k: v for k, v in spec[1]}
+  if 'act' in kw:
+    # a non-default activation_fn (by name, so that the spec stays hashable)
+    import jax
+    kw['activation_fn'] = getattr(jax.nn, kw.pop('act'))
+  return kw
+
+
+def _spec_act(spec):
+  from vf.refs import seq
+  name = dict(spec[1]).get('act')
+  return np.tanh if name is None else getattr(seq, name)
 
 
 def _feat_shape(spec, fin):
@@ -162,8 +175,9 @@ def _feat_shape(spec, fin):
 
 
 def _spec_name(spec):
-  kw = _spec_kw(spec)
-  return spec[0] + (''.join('[%s=%s]' % (k, kw[k]) for k in sorted(kw)) if kw else '')
+  # (from the hashable spec itself: the resolved keyword arguments may hold function objects)
+  kw = dict(spec[1])
+  return spec[0] + ('[' + ','.join('%s=%s' % (k, kw[k]) for k in sorted(kw)) + ']' if kw else '')
 
 
 # ---------------------------------------------------------------------------------------------
@@ -199,7 +213,8 @@ def linen_ref_step(spec):
   from vf.refs import seq
   name, kw = spec[0], _spec_kw(spec)
   if name in ('LSTMCell', 'OptimizedLSTMCell'):
-    return seq.lstm_step
+    act = _spec_act(spec)
+    return lambda p, c, x: seq.lstm_step(p, c, x, act=act)
   if name == 'GRUCell':
     return seq.gru_step
   if name == 'SimpleCell':
@@ -240,9 +255,11 @@ def nnx_ref_step(spec):
   from vf.refs import seq
   name, kw = spec[0], _spec_kw(spec)
   if name == 'LSTMCell':
-    return seq.lstm_step
+    act = _spec_act(spec)
+    return lambda p, c, x: seq.lstm_step(p, c, x, act=act)
   if name == 'OptimizedLSTMCell':
-    return seq.fused_lstm_step
+    act = _spec_act(spec)
+    return lambda p, c, x: seq.fused_lstm_step(p, c, x, act=act)
   if name == 'GRUCell':
     return seq.fused_gru_step
   if name == 'SimpleCell':
@@ -459,7 +476,7 @@ def run_rnn_case(ctx, api, cfg, rg, K):
     if api == 'nnx' and spec[0] == 'LSTMCell' and k == 0:
       import flax.linen as nn
       lname = ['LSTMCell', 'OptimizedLSTMCell'][int(rg.integers(0, 2))]
-      lrnn = nn.RNN(getattr(nn, lname)(features=hid), **ctor_kw)
+      lrnn = nn.RNN(getattr(nn, lname)(features=hid, **_spec_kw(spec)), **ctor_kw)
       lp = jax.tree_util.tree_map(jnp.asarray, params_np)
       lgot = lrnn.apply({'params': {'cell': lp}}, jnp.asarray(_layout(x, nb, tm)), seq_lengths=Lj, initial_carry=c0, **{**call_kw, **over})
       ctx.op('xapi.lstm[%s]' % lname)
